@@ -169,6 +169,7 @@ static void incrCase(Rng &rng, CaseResult &r) {
 int main(int argc, char **argv) {
   std::vector<vf::Part> parts;
   parts.push_back({"c09.hpwl", [](uint64_t, Rng &rng, CaseResult &r) { hpwlCase(rng, r); }, 10});
+  parts.push_back(vf::threaded("c09.threads", [](uint64_t, Rng &rng, CaseResult &r) { incrCase(rng, r); }, 4, 25, 120));
   parts.push_back({"c09.incr", [](uint64_t, Rng &rng, CaseResult &r) { incrCase(rng, r); }, 10});
   return vf::runMain(argc, argv, parts);
 }
